@@ -107,8 +107,8 @@ PROPS = {
              "offline.enter, connect.locked, dial.done, handshake.done} x 1-4 shutdown calls from {Close, Disconnect(nil | open "
              "| closed | closed later)}. Non-trivial: a state other than online-idle/never-connected, or >= 2 concurrent calls.",
         assumptions=ASSUME_SIM + ["Disconnect with a nil or unfired quit may wait for a writer which is inside Write (documented: 'nil just blocks'); Close may not"],
-        quick=dict(engines=[rapid('^TestC12', 2400)]),
-        thorough=dict(engines=[rapid('^TestC12', 60000, shards=14, timeout=1500), rapid('^TestC12', 2000, shards=8, steps=30, timeout=1500, race=True)]),
+        quick=dict(engines=[rapid('^TestC12Shutdown', 2400), rapid('^TestC12LibraryDialers', 160, shards=2)]),
+        thorough=dict(engines=[rapid('^TestC12Shutdown', 60000, shards=14, timeout=1500), rapid('^TestC12Shutdown', 2000, shards=8, steps=30, timeout=1500, race=True), rapid('^TestC12LibraryDialers', 4000, shards=4, timeout=1500)]),
     ),
     'C04': dict(
         claimed=True,
@@ -391,9 +391,9 @@ RULE_ADDENDA = {
            "model forgets its session on a CONNECT which carries the flag. Behind the recording Persistence double sits, per case, its own map (5 in 8), the library's in-memory map (2 in 8) or mqtt.FileSystem on a scratch directory (1 in 8).",
     'C04': "Also: restart optionally after an orderly end (Close from another goroutine while the application holds the last "
            "return, then one more ReadSlices). Ownership is taken as the property states it: the application invoked ReadSlices "
-           "again after the return (a failing marker Save in that invocation excepted, as documented). The application skips every BigMessage in half of the histories (the next ReadSlices discards the payload); bigSkippedThenLoss: a message beyond the read buffer whose tail is cut by a read fault (reset, EOF, stall) while the skipped payload is discarded. Inbound identifiers may alias one in flight modulo 0x4000. Behind the recording Persistence double sits, per case, its own map (5 in 8), the library's in-memory map (2 in 8) or mqtt.FileSystem on a scratch directory (1 in 8). The inbound engine (C04, C06, C07) requests a clean session at the first connect in 1 of 3 histories (reconnects continue the session; a restart adopts without the flag).",
+           "again after the return (a failing marker Save in that invocation excepted, as documented). The application skips every BigMessage in half of the histories (the next ReadSlices discards the payload); bigSkippedThenLoss: a message beyond the read buffer whose tail is cut by a read fault (reset, EOF, stall) while the skipped payload is discarded. Inbound identifiers may alias one in flight modulo 0x4000. Behind the recording Persistence double sits, per case, its own map (5 in 8), the library's in-memory map (2 in 8) or mqtt.FileSystem on a scratch directory (1 in 8). The inbound engine (C04, C06, C07) requests a clean session at the first connect in 1 of 3 histories (reconnects continue the session; a restart adopts without the flag). Action pubcompWriteFails: the write of the PUBCOMP fails (the PUBREL was handled), reconnect with the PUBCOMP owed; the broker reuses the identifier afterwards.",
     'C05': "Also: 1 in 4 histories start from a session positioned at the identifier wrap; optional restart at the end "
-           "(adoption, continuation, resend order and DUP of the next process). Behind the recording Persistence double sits, per case, its own map (5 in 8), the library's in-memory map (2 in 8) or mqtt.FileSystem on a scratch directory (1 in 8). One case in five runs on a session made the way VolatileSession makes it (the library's map, no checksum layer). brokerSend (inbound traffic). CleanSession is requested in 1 of 3 histories (never by the process which adopts the session at the end).",
+           "(adoption, continuation, resend order and DUP of the next process). Behind the recording Persistence double sits, per case, its own map (5 in 8), the library's in-memory map (2 in 8) or mqtt.FileSystem on a scratch directory (1 in 8). One case in five runs on a session made the way VolatileSession makes it (the library's map, no checksum layer). brokerSend (inbound traffic). CleanSession is requested in 1 of 3 histories (never by the process which adopts the session at the end). TestC05NoPauseTimeout: the Config default (no PauseTimeout, no write deadlines), pipe-like connections in 3 of 4 cases, persisted publishes without payload cut right behind the packet, reconnect: same order and DUP rules.",
     'C06': "Also (full-size read buffer only): 1 in 400 messages has a remaining length of 2,097,151, 2,097,152 or 2,097,153 bytes (three-byte to four-byte length). In 1 of 4 cases an earlier connection came first, which delivered 1-3 packets with a body and then failed inside ReadSlices (nothing of it may leak into the next connection).",
     'C07': "Also: storeFault(S|L|D) on the inbound path. Same BigMessage skipping and bigSkippedThenLoss as in C04. Behind the recording Persistence double sits, per case, its own map (5 in 8), the library's in-memory map (2 in 8) or mqtt.FileSystem on a scratch directory (1 in 8). One ending in five: Disconnect from another goroutine while the application holds the last return.",
     'C08': "Also: resendFault (connection lost; a write fault 0-90 bytes into the retransmission on the next connection, of kind "
@@ -413,7 +413,7 @@ RULE_ADDENDA = {
            "ones follow in forward, reverse or interleaved order. Also: connectFails (connection lost; the next attempt parks in the Dialer or in the handshake; 1-3 requests are "
            "issued meanwhile; the attempt fails; they must return without any further ReadSlices). 1 in 8 requests carries one filter sized such that the remaining length is 126-130. Behind the recording Persistence double sits, per case, its own map (5 in 8), the library's in-memory map (2 in 8) or mqtt.FileSystem on a scratch directory (1 in 8). One case in five runs on a session made the way VolatileSession makes it (the library's map, no checksum layer). malformedPingresp (PINGRESP with a remaining length of 1 or 2 while a Ping waits); a Ping counts as answered only by the exact bytes d0 00.",
     'C12': "Also: in state dialing the Dialer may ignore the end of its context and hand out a connection after Close (it must "
-           "be closed; Close itself need not beat such a Dialer). State next-write-fails (the next Write on the connection times out or resets: DISCONNECT itself, if no request comes first). Behind the recording Persistence double sits, per case, its own map (5 in 8), the library's in-memory map (2 in 8) or mqtt.FileSystem on a scratch directory (1 in 8). One case in five runs on a session made the way VolatileSession makes it (the library's map, no checksum layer). Every error ReadSlices returns before ErrClosed must get a non-nil ReadBackoff. State connecting-behind-a-slow-save: a publisher sits inside a parked Persistence.Save (holds its sequence lock), the connection is lost, the read routine reconnects up to the wait for that lock, the shutdown arrives, the Save completes afterwards. State connect-write-parked: the peer stops taking bytes inside the CONNECT. After the shutdown every connection starts with (a prefix of) the CONNECT of the Config and carries whole packets only.",
+           "be closed; Close itself need not beat such a Dialer). State next-write-fails (the next Write on the connection times out or resets: DISCONNECT itself, if no request comes first). Behind the recording Persistence double sits, per case, its own map (5 in 8), the library's in-memory map (2 in 8) or mqtt.FileSystem on a scratch directory (1 in 8). One case in five runs on a session made the way VolatileSession makes it (the library's map, no checksum layer). Every error ReadSlices returns before ErrClosed must get a non-nil ReadBackoff. State connecting-behind-a-slow-save: a publisher sits inside a parked Persistence.Save (holds its sequence lock), the connection is lost, the read routine reconnects up to the wait for that lock, the shutdown arrives, the Save completes afterwards. State connect-write-parked: the peer stops taking bytes inside the CONNECT. After the shutdown every connection starts with (a prefix of) the CONNECT of the Config and carries whole packets only. One online case in four has a connection whose Close takes its time: a Close call which returns while another shutdown call still sits in conn.Close must find the signals flipped. TestC12LibraryDialers: NewDialer / NewTLSDialer over loopback TCP against a peer which accepts and stays silent; Close, Disconnect(nil) and Disconnect(fired quit) after 0-30 ms of dialing must return and ReadSlices must report ErrClosed within the hang oracle's quiet period (5 s).",
     'C13': "Also: after a violation and the redial a PUBLISH is sent on the fresh connection and must come out as sent (clean "
            "slate: no skip count, big-message marker or partial packet carried over). Setup may include 0-2 publishes per level refused by a failing Save; announced topic lengths up to 0xffff. TestC13AckBeforeWritten: 0-2 pending transfers, the next publish parks 0-12 bytes into its Write, the broker acknowledges everything including the packet in transit, the Write then ends by reset, timeout or completion: no panic, the call returns, the session goes on. Hostile packets include acknowledgements whose identifier is plausible (the one next in line among them) followed by 1-2 surplus bytes. One stream in six is cut 1-200 bytes short of its end (silence inside the last packet, e.g. in the payload of a message beyond the read buffer which the application does not read).",
     'C14': "Simulated half, state online without fault: in 1 of 3 cases an earlier persisted publish of the level was refused (its Save failed); the publish which follows must be accepted, report no submission error on its exchange and be on the wire. In 1 of 4 online cases the connection's Close reports an error (as a TLS close_notify to a peer which is gone).",
